@@ -172,7 +172,7 @@ class Fn:
             chain, callees, sw = self.loop_test(head)
             for b in body:
                 for s_ in self.succ[b]:
-                    if s_ not in body and b != sw and not self.is_try_switch(b):
+                    if s_ not in body and b != sw and not self.is_try_switch(b) and self.blocks[s_]['term'][0] != 'unreachable':
                         early += 1
             backs = [b for b in body if head in self.succ[b]]
             skips += max(0, len(backs) - 1)
